@@ -119,13 +119,14 @@ def run_impl(a):
     for step in range(nsteps):
         p5.VA = 1 if a["va%d" % step] == 1 else 2
         p5.VB = 1 if a["vb%d" % step] == 1 else 2
-        want = p5.plain()
+        extra = bool(sel.get("extra")) and step == nsteps - 1  # the last evaluation also keeps /q/a's function at /q/a2
+        want = p5.plain(extra)
         if step == nsteps - 1 and sel.get("restart"):
             h.fresh_process()
             dds.accept_module("vpipes")
             api.set_store("dbfs", INT, DATA, dbu, ctype, None)
         try:
-            r = dds.eval(p5.top)
+            r = dds.eval(p5.top2 if extra else p5.top)
         except DDSException as e:
             return h.verdict(bad("step %d: keep raised %s" % (step, str(e)[:100])))
         except Exception as e:
@@ -140,7 +141,7 @@ def run_impl(a):
             ok = bad("step %d: keep returned %r, plain %r" % (step, r, want["top"]))
             break
         files = _data_files(fs)
-        for q in ("/q/a", "/q/b", "/q/c"):
+        for q in (("/q/a", "/q/a2", "/q/b", "/q/c") if extra else ("/q/a", "/q/b", "/q/c")):
             rel = q[1:]
             copy = files.get(rel)
             rec = files.get("_dds_meta/" + rel)
@@ -242,6 +243,9 @@ def queries(tier):
     for ct in ("none", "links_only", "full"):
         for restart in (0, 1):
             qs.append({"id": "run.%s.%s" % (ct, "restart" if restart else "same"), "fn": "run", "sel": {"ctype": ct, "restart": restart, "steps": 2 if tier == "quick" else 3}, "timeout": 600 if tier == "quick" else 1800})
+    # the last evaluation adds a path for a blob that an already registered path designates (same key, two paths in one commit)
+    for ct in ("links_only", "full"):
+        qs.append({"id": "run.%s.twopaths" % ct, "fn": "run", "sel": {"ctype": ct, "restart": 0, "steps": 2, "extra": True}, "timeout": 600})
     for kind in ("string", "bytes", "pickle"):
         qs.append({"id": "legacy.%s" % kind, "fn": "legacy", "sel": {"kind": kind}, "timeout": 300})
     return qs
